@@ -1,4 +1,4 @@
-import BiotiteModel.Proofs.C07Misc
+import BiotiteModel.Proofs.C07Models
 import BiotiteModel.Gen.C07
 /-!
 # C07 — PDB files round-trip structures and never emit shifted columns: property theorems
@@ -123,12 +123,9 @@ theorem C07_ids_written (fl : Flags) (i : Nat) (a : Atom) (hr : IdsInRange fl i 
     simp only [if_true]
     exact ⟨⟨s1, by rw [hn]; exact h1⟩, ⟨s2, by rw [hm]; exact h2⟩⟩
 
-/-- **record round trip (partial: identifier and name fields).**  Reading the standard columns of a written
-record gives back hetero flag, atom id, atom name, residue name, chain, residue id, insertion code and
-element.  The numeric fields (coordinates, occupancy, B-factor, charge) are covered by `C07_columns` +
-`C07_round_error` (their text sits in its columns and is within half a unit of the last decimal); that
-`float()` reads this text back is tied by the correspondence and the write/read oracle, not by a theorem. -/
-theorem C07_atom_roundtrip_partial (fl : Flags) (i : Nat) (a : Atom) (c : Coord) (idTxt resTxt : List Char)
+/-- Reading the standard columns of a written record gives back hetero flag, atom id, atom name, residue
+name, chain, residue id, insertion code and element (the identifier/name part of `C07_atom_roundtrip`). -/
+theorem C07_atom_fields_read (fl : Flags) (i : Nat) (a : Atom) (c : Coord) (idTxt resTxt : List Char)
     (h : CompatStrong fl i a) (hc : CoordStrong c) (hcl : Clean a) (hr : IdsInRange fl i a)
     (hid : idText fl.h36 5 pdbMaxAtoms (effId fl i a) = .ok idTxt)
     (hres : idText fl.h36 4 pdbMaxResidues a.resId = .ok resTxt) :
@@ -173,6 +170,55 @@ theorem C07_atom_roundtrip_partial (fl : Flags) (i : Nat) (a : Atom) (c : Coord)
   · show strip (slice 76 78 l) = _
     rw [s17]; exact strip_rjust 2 _ c5
 
+/-- **record round trip.**  For an atom accepted by the check (`CompatStrong`, `CoordStrong`) with blank-free
+fields, a non-empty element and ids inside the un-wrapped range, the reader applied to the written record
+returns every annotation unchanged — B-factor and occupancy as the value rounded to 10⁻² (units of 10⁻²),
+the charge, and the coordinates rounded to 10⁻³ (units of 10⁻³); by `C07_round_error` these are within half
+a unit of the last decimal of the value that was written. -/
+theorem C07_atom_roundtrip (fl : Flags) (i : Nat) (a : Atom) (c : Coord) (idTxt resTxt : List Char)
+    (h : CompatStrong fl i a) (hc : CoordStrong c) (hcl : Clean a) (hr : IdsInRange fl i a) (hel : a.element ≠ [])
+    (hid : idText fl.h36 5 pdbMaxAtoms (effId fl i a) = .ok idTxt)
+    (hres : idText fl.h36 4 pdbMaxResidues a.resId = .ok resTxt) :
+    let l := atomLine (firstHalf a idTxt resTxt) (secondHalf fl a) c
+    parseAtomLine l = some (.ok (expectedRead fl i a)) ∧
+    parseCoordLine l = some (.ok (c.1.units 3, c.2.1.units 3, c.2.2.units 3)) := by
+  have hcol := C07_columns fl i a c idTxt resTxt h hc hcl hid hres
+  have hf := C07_atom_fields_read fl i a c idTxt resTxt h hc hcl hr hid hres
+  intro l
+  obtain ⟨_, _, _, _, _, _, _, _, _, _, _, _, sx, sy, sz, socc, sbf, _, _, sq⟩ := hcol
+  obtain ⟨f0, f1, f2, f3, f4, f5, f6, f7, f8⟩ := hf
+  have hocc : (parseFixed (slice 54 60 l)).units 2 = some (.ok (if fl.hasOcc then a.occ.units 2 else 100)) := by
+    show (parseFixed (slice 54 60 l)).units 2 = _
+    rw [socc]; unfold occText
+    cases fl.hasOcc
+    · exact parse_default_occ
+    · exact units_parse_fmtFixed 2 6 (by decide) a.occ
+  have hbf : (parseFixed (slice 60 66 l)).units 2 = some (.ok (if fl.hasB then a.bf.units 2 else 0)) := by
+    show (parseFixed (slice 60 66 l)).units 2 = _
+    rw [sbf]; unfold bfText
+    cases fl.hasB
+    · exact parse_default_bf
+    · exact units_parse_fmtFixed 2 6 (by decide) a.bf
+  have hq : parseCharge (slice 78 80 l) = some (.ok (if fl.hasQ then a.charge else 0)) := by
+    show parseCharge (slice 78 80 l) = _
+    rw [sq]; exact parseCharge_chargeField fl a h.charge
+  have hele : (strip (slice 76 78 l)).isEmpty = false := by
+    show (strip (slice 76 78 l)).isEmpty = false
+    rw [f8]; cases he : a.element with
+    | nil => exact absurd he hel
+    | cons _ _ => rfl
+  have hx : (parseFixed (slice 30 38 l)).units 3 = some (.ok (c.1.units 3)) := by
+    show (parseFixed (slice 30 38 l)).units 3 = _
+    rw [sx]; exact units_parse_fmtFixed 3 8 (by decide) c.1
+  have hy : (parseFixed (slice 38 46 l)).units 3 = some (.ok (c.2.1.units 3)) := by
+    show (parseFixed (slice 38 46 l)).units 3 = _
+    rw [sy]; exact units_parse_fmtFixed 3 8 (by decide) c.2.1
+  have hz : (parseFixed (slice 46 54 l)).units 3 = some (.ok (c.2.2.units 3)) := by
+    show (parseFixed (slice 46 54 l)).units 3 = _
+    rw [sz]; exact units_parse_fmtFixed 3 8 (by decide) c.2.2
+  exact ⟨parseAtomLine_of_slices l (expectedRead fl i a) f6 f3 hele hq hocc hbf f1 f0 f5 f7 f4 f2 f8,
+         parseCoordLine_of_slices l _ _ _ hx hy hz⟩
+
 /-- non-vacuity: a concrete HETATM record on the column limits -/
 example :
     let a : Atom := { hetero := true, atomId := -9999, name := "CA".toList, resName := "LIG".toList, chain := [],
@@ -183,6 +229,107 @@ example :
     checkAtom fl 0 a = true ∧ checkCoord c = true ∧
     atomLine (firstHalf a "-9999".toList "-999".toList) (secondHalf fl a) c =
       "HETATM-9999  CA  LIG  -999A   -999.9999999.999  -0.000  1.00  0.00           C9-".toList := by decide
+
+/-! ## MODEL / ENDMDL indexing -/
+
+/-- **models.**  In a successfully written stack (≥ 2 models) `get_structure(model=k)` selects exactly the atom
+records of model `k` (1-based), `model=-k` those of the k-th model from the end, and every other index
+(0, beyond the last model, below `-n_models`) is refused with `ValueError`.  The selected records are the
+`atomLine`s of that model's coordinates with the per-atom halves `C07_atom_roundtrip` speaks about. -/
+theorem C07_models (fl : Flags) (s : Struct) (lines : List (List Char)) (h : writePdb fl s = .ok lines)
+    (hM : 2 ≤ s.models.length) :
+    ∃ halves : List (List Char × List Char),
+      (∀ hv ∈ halves, ∃ a idTxt resTxt, hv = (firstHalf a idTxt resTxt, secondHalf fl a)) ∧
+      (∀ k, (hk : k < s.models.length) → selectModel lines ((k : Int) + 1) = .ok (recordsOf halves s.models[k])) ∧
+      (∀ k, (hk : k < s.models.length) →
+        selectModel lines (-((k : Int) + 1)) = .ok (recordsOf halves (s.models[s.models.length - 1 - k]'(by omega)))) ∧
+      (∀ m : Int, m = 0 ∨ (s.models.length : Int) < m ∨ m < -(s.models.length : Int) →
+        selectModel lines m = .error .valueError) := by
+  obtain ⟨ids, ress, con, _, _, hcon, hl⟩ := writePdb_shape fl s lines h
+  have hst : decide (1 < s.models.length) = true := by simp; omega
+  rw [hst] at hl
+  let halves := (s.atoms.zip (ids.zip ress)).map fun q => (firstHalf q.1 q.2.1 q.2.2, secondHalf fl q.1)
+  have hhalves : ∀ hv ∈ halves, ∃ a idTxt resTxt, hv = (firstHalf a idTxt resTxt, secondHalf fl a) := by
+    intro hv hm
+    obtain ⟨q, _, rfl⟩ := List.mem_map.1 hm
+    exact ⟨q.1, q.2.1, q.2.2, rfl⟩
+  let bs : List (Line × List Line) :=
+    (enum s.models).map fun p => ("MODEL     ".toList ++ rjust 4 (natDec (p.1 + 1)), recordsOf halves p.2)
+  have hfile : lines = fileOf bs con := by
+    rw [hl]
+    simp only [fileOf, bs, List.map_map]
+    congr 2
+  have hlen : bs.length = s.models.length := by simp [bs, enum_length]
+  have hbk : ∀ k, (hk : k < s.models.length) → (bs[k]'(by omega)).2 = recordsOf halves s.models[k] := by
+    intro k hk
+    simp [bs, enum_getElem]
+  have g : GoodFile bs con := by
+    refine ⟨?_, ?_, hcon⟩
+    · intro b hb
+      obtain ⟨p, _, rfl⟩ := List.mem_map.1 hb
+      exact modelRecord_kind _
+    · intro b hb x hx
+      obtain ⟨p, _, rfl⟩ := List.mem_map.1 hb
+      obtain ⟨q, hq, rfl⟩ := List.mem_map.1 hx
+      obtain ⟨a, idTxt, resTxt, hv⟩ := hhalves q.1 (List.of_mem_zip hq).1
+      have : q.1.1 = firstHalf a idTxt resTxt := by rw [hv]
+      rw [this]
+      exact atomLine_kind a idTxt resTxt _ _
+  have hne : bs ≠ [] := by
+    intro h0; rw [h0] at hlen; simp at hlen; omega
+  obtain ⟨h1, h2, h3⟩ := selectModel_fileOf bs con g hne
+  refine ⟨halves, hhalves, ?_, ?_, ?_⟩
+  · intro k hk
+    rw [hfile, h1 k (by omega), hbk k hk]
+  · intro k hk
+    rw [hfile, h2 k (by omega)]
+    have := hbk (s.models.length - 1 - k) (by omega)
+    simp only [hlen]
+    rw [this]
+  · intro m hm
+    rw [hfile]
+    exact h3 m (by rw [hlen]; exact hm)
+
+/-- a single model is written without `MODEL` records; it is model 1 and model -1, nothing else -/
+theorem C07_models_single (fl : Flags) (s : Struct) (coords : List Coord) (lines : List (List Char))
+    (h : writePdb fl s = .ok lines) (hM : s.models = [coords]) (hne : s.atoms ≠ []) (hc : coords ≠ []) :
+    ∃ halves : List (List Char × List Char),
+      (∀ hv ∈ halves, ∃ a idTxt resTxt, hv = (firstHalf a idTxt resTxt, secondHalf fl a)) ∧ halves.length = s.atoms.length ∧
+      selectModel lines 1 = .ok (recordsOf halves coords) ∧ selectModel lines (-1) = .ok (recordsOf halves coords) ∧
+      (∀ m : Int, m = 0 ∨ 1 < m ∨ m < -1 → selectModel lines m = .error .valueError) := by
+  obtain ⟨ids, ress, con, hi, hr, hcon, hl⟩ := writePdb_shape fl s lines h
+  have hst : decide (1 < s.models.length) = false := by simp [hM]
+  rw [hst, hM] at hl
+  let halves := (s.atoms.zip (ids.zip ress)).map fun q => (firstHalf q.1 q.2.1 q.2.2, secondHalf fl q.1)
+  have hhalves : ∀ hv ∈ halves, ∃ a idTxt resTxt, hv = (firstHalf a idTxt resTxt, secondHalf fl a) := by
+    intro hv hm
+    obtain ⟨q, _, rfl⟩ := List.mem_map.1 hm
+    exact ⟨q.1, q.2.1, q.2.2, rfl⟩
+  have hlen : halves.length = s.atoms.length := by
+    have h1 := mapME_length _ _ _ hi
+    have h2 := mapME_length _ _ _ hr
+    simp only [enum_length] at h1
+    simp [halves, h1, h2]
+  have hfile : lines = recordsOf halves coords ++ con := by
+    rw [hl]
+    simp [enum, modelLines_single, halves]
+  have hrne : recordsOf halves coords ≠ [] := by
+    obtain ⟨a, as, ha⟩ := List.exists_cons_of_ne_nil hne
+    obtain ⟨c, cs, hcc⟩ := List.exists_cons_of_ne_nil hc
+    have : halves ≠ [] := by
+      intro h0; rw [h0, ha] at hlen; simp at hlen
+    obtain ⟨hv, hvs, hh⟩ := List.exists_cons_of_ne_nil this
+    simp [recordsOf, hh, hcc]
+  have hat : ∀ x ∈ recordsOf halves coords, isAtomLine x = true ∧ isModelLine x = false := by
+    intro x hx
+    obtain ⟨q, hq, rfl⟩ := List.mem_map.1 hx
+    obtain ⟨a, idTxt, resTxt, hv⟩ := hhalves q.1 (List.of_mem_zip hq).1
+    have : q.1.1 = firstHalf a idTxt resTxt := by rw [hv]
+    rw [this]
+    exact atomLine_kind a idTxt resTxt _ _
+  obtain ⟨h1, h2, h3⟩ := selectModel_single (recordsOf halves coords) con hrne hat hcon
+  rw [hfile]
+  exact ⟨halves, hhalves, hlen, h1, h2, h3⟩
 
 /-! ## CONECT records -/
 
